@@ -244,12 +244,20 @@ def irR (t s : String) : IR := one "x" { doc := some "a value", typ := some "int
 
 /-- **function: a return type without `[` is deleted by a return statement and re-inferred from the default** (types in
     the docstring) -/
-theorem function_return_typ_dropped :
+theorem function_return_typ_reinferred :
     roundTrip (envR "int" tblA) .function { typeAnnotations := false } (irR "int" "K") =
       .ok ([{ name := "x", typ := some "int", default := some (.val (.str NoneStr)), doc := some "a value" }],
            some { name := "return_type", typ := some "str", default := some (.val (.str "K")), doc := some "the result" }) := by decide
-theorem C02_full_fails_function_return_typ_dropped : ¬ C02_full (envR "int" tblA) :=
+theorem C02_full_fails_function_return_typ_reinferred : ¬ C02_full (envR "int" tblA) :=
   refute _ .function { typeAnnotations := false } (irR "int" "K") (by decide) (by decide) (by decide)
+
+/-- **function: … and with a code default it stays deleted even when the annotation had restored it** -/
+theorem function_return_typ_dropped :
+    roundTrip (envR "int" [("foo(3)", .code "foo(3)" false)]) .function {} (irR "int" "```foo(3)```") =
+      .ok ([{ name := "x", typ := some "int", default := some (.val (.str NoneStr)), doc := some "a value" }],
+           some { name := "return_type", typ := none, default := some (.val (.str "```foo(3)```")), doc := some "the result" }) := by decide
+theorem C02_full_fails_function_return_typ_dropped : ¬ C02_full (envR "int" [("foo(3)", .code "foo(3)" false)]) :=
+  refute _ .function {} (irR "int" "```foo(3)```") (by decide) (by decide) (by decide)
 
 /-- **function: a bare non-name return source comes back wrapped in backticks** -/
 theorem function_return_default_code_quoted :
